@@ -6,7 +6,7 @@ RELAYS = ['$' + ('%X' % (i + 10)) * 40 + '~relay%d' % i for i in range(5)] + ['$
 HOSTS = ['example.com:80', 'torproject.org:443', '10.0.0.1:22', 'foo.onion:80', 'relay1.exit:80', 'meejah.ca:443']
 C_IDS = [1, 2, 3, 5, 8, 13]
 S_IDS = [1, 2, 3, 4, 6, 7, 9, 11]
-ANSWERS = ['n', 'd', 'x', 'r', 'later']
+ANSWERS = ['n', 'd', 'x', 'z0', 'z1', 'z2', 'z3', 'r', 'later']
 
 
 class World:
@@ -26,8 +26,16 @@ class World:
         parts = [str(cid), status]
         if status not in ('LAUNCHED',) and c and c['path']:
             parts.append(c['path'])
-        parts.append('BUILD_FLAGS=NEED_CAPACITY' + (',IS_INTERNAL' if cid % 2 else ''))
-        parts.append('PURPOSE=%s' % ('GENERAL' if cid % 3 else 'HS_CLIENT_REND'))
+        # Tor re-purposes circuits (cannibalisation, SETCIRCUITPURPOSE): purpose and build flags of a known circuit can change
+        if c is not None and self.rng.random() < 0.2:
+            c['purpose'] = self.rng.choice(['GENERAL', 'HS_CLIENT_REND', 'CONTROLLER', 'HS_SERVICE_INTRO'])
+            c['bflags'] = self.rng.choice(['NEED_CAPACITY', 'NEED_CAPACITY,IS_INTERNAL', 'ONEHOP_TUNNEL,IS_INTERNAL'])
+        purpose = (c or {}).get('purpose') or ('GENERAL' if cid % 3 else 'HS_CLIENT_REND')
+        bflags = (c or {}).get('bflags') or ('NEED_CAPACITY' + (',IS_INTERNAL' if cid % 2 else ''))
+        if self.rng.random() < 0.9:
+            parts.append('BUILD_FLAGS=' + bflags)
+        if self.rng.random() < 0.9:
+            parts.append('PURPOSE=' + purpose)
         parts.append('TIME_CREATED=2026-01-01T00:00:%02d.000000' % (cid % 60))
         if extra:
             parts.append(extra)
@@ -217,10 +225,18 @@ def gen_case(rng, *, n_ops, listeners=True, waits=True, attach=False, weird=Fals
                 free = [i for i in S_IDS if i not in w.strms]
                 if free:
                     sid = rng.choice(free)
-                    port = registered.pop(rng.randrange(len(registered))) if rng.random() < 0.8 else rng.choice(registered) + 1000
+                    addr = '127.0.0.1'
+                    r2 = rng.random()
+                    if r2 < 0.65:
+                        port = registered.pop(rng.randrange(len(registered)))
+                    elif r2 < 0.8:
+                        port = rng.choice(registered) + 1000          # an unrelated stream on another port
+                    else:
+                        port = rng.choice(registered)                 # an unrelated stream from another address with the same port
+                        addr = rng.choice(['10.1.2.3', '127.0.0.2'])
                     tgt = rng.choice(HOSTS)
                     w.strms[sid] = {'status': 'NEW', 'on': 0, 'target': tgt}
-                    l = '%d NEW 0 %s SOURCE_ADDR=127.0.0.1:%d PURPOSE=USER' % (sid, tgt, port)
+                    l = '%d NEW 0 %s SOURCE_ADDR=%s:%d PURPOSE=USER' % (sid, tgt, addr, port)
                     see_strm(l)
                     ops.append(['strm', l, [], None])
                     continue
@@ -303,7 +319,7 @@ def gen_case(rng, *, n_ops, listeners=True, waits=True, attach=False, weird=Fals
             k = rng.random()
             if asked and k < 0.5:
                 t = asked.pop(rng.randrange(len(asked)))
-                ops.append(['ans', t, rng.choice(['n', 'd', 'x', 'r'] + (['c%d' % rng.randrange(n_c)] * 4 if n_c else []))])
+                ops.append(['ans', t, rng.choice(['n', 'd', 'x', 'z0', 'z1', 'z2', 'z3', 'r'] + (['c%d' % rng.randrange(n_c)] * 4 if n_c else []))])
             elif k < 0.8:
                 n = rng.choice([1, 1, 2])
                 if attacher is None:
@@ -504,7 +520,7 @@ class Spec:
         if ans == 'n':
             self.cmds.append('ATTACHSTREAM %d 0' % s['id'])
             self.pending.append(('attach',))
-        elif ans == 'x':
+        elif ans == 'x' or ans.startswith('z'):
             self.outs.append(['e', 'not-a-circuit'])
         elif ans == 'r':
             self.outs.append(['e', 'attacher-raised'])
